@@ -271,6 +271,11 @@ def run(ctx):
         "argument domain {0,1,2} per argument; universe of 11 mocked methods (engines/harness/src/universe.rs)",
         "hooks H1 (DynClause) and H2 (snapshot) forward/read only",
     ]
+    if ctx.prop == "C14":
+        # "a configured return that cannot be produced in the current feature set": composite returns in the no_std
+        # build without a lock (generated programs)
+        from . import engine_b_more
+        engine_b_more.nolock_returns_stage(ctx)
 
 
 def replay(prop, path):
